@@ -5,23 +5,41 @@ LEVEL = "model_checking"
 
 
 def run(ck):
-    conslib.design_check(ck, "C01")
-    plan = [("random", 36)] if ck.tier == "quick" else [("random", 500), ("gst", 60)]
-    seeds = [ck.seed] if ck.tier == "quick" else [ck.seed, ck.seed + 1000]
-    conslib.run_layers(ck, plan, ["C01_"], seeds=seeds, conformance=(ck.tier != "quick"))
-    conslib.attack_replays(ck, "C01")
+    quick = ck.tier == "quick"
+    # (D) exhaustive: quorum-view abstraction, all schedules x all Byzantine strategies; mutants must be refuted
+    if quick:
+        conslib.quorum_design(ck, ["MCQ_c01_r0"], ["MCQ_atbound_r0"])
+    else:
+        conslib.quorum_design(ck, ["MCQ_c01_r0", "MCQ_c01", "MCQ_skew"], ["MCQ_atbound", "MCQ_mutHalf"], timeout=2400)
+    # (D) per-message model by simulation; the schedules TLC chose are replayed on the real participants below
+    hists = conslib.permsg_design(ck, "c01", "fork", 120 if quick else 3000, maxround=2)
+    # (T) seeded runs of real participants, clause C01_Agreement evaluated by TLC on every reported decision
+    plan = [("random", 30)] if quick else [("random", 500), ("gst", 60)]
+    seeds = [ck.seed] if quick else [ck.seed, ck.seed + 1000]
+    conslib.run_layers(ck, plan, ["C01_"], seeds=seeds, conformance=not quick)
+    # (R-conf) TLC-generated schedules, (R-attack) TLC counterexamples of mutant specs, on real participants
+    if not ck.violations:
+        conslib.replay_conformance(ck, ck.binary, "fork", hists[: (60 if quick else 1500)], ["C01_"], conformance=not quick)
+    if not ck.violations:
+        conslib.attack_replays(ck, ck.binary, ["C01_"])
     a = ck.cov["antecedents"]
-    if a.get("decisions", 0) < 20 or not a.get("byz_deliveries"):
+    if not ck.violations and (a.get("decisions", 0) < 20 or not a.get("byz_deliveries")):
         raise Inconclusive("vacuous run: %s" % a)
-    ck.cov["distinct_nontrivial"] = a["runs"]
-    ck.cov["rule"] = ("design: all reachable states of the quorum-view abstraction; code: seeded runs of real participants with Byzantine members < 1/3 (adaptive forger, selective "
-                      "delivery, equivocation) and replays of TLC-generated attack schedules; a case = one run; clause C01_Agreement evaluated by TLC on every reported decision")
+    ck.cov["distinct_nontrivial"] = a["runs"] + ck.cov.get("replayed_tlc_schedules", 0) + ck.cov.get("attack_schedules_replayed", 0)
+    ck.cov["rule"] = ("design: all reachable states of the quorum-view abstraction GPBFTQuorum.tla (exhaustive) + random walks of the per-message model MCGPBFT.tla; code: a case = one run "
+                      "of real participants: seeded random runs with Byzantine members < 1/3 (adaptive forger, selective delivery, equivocation), replays of TLC-chosen schedules, and "
+                      "replays of TLC counterexamples of mutant specs (attack schedules); clause C01_Agreement evaluated by TLC on every reported decision")
+    ck.assumptions += ["sim/signing.FakeBackend stands for BLS (signatures unforgeable)", "the driver's scheduler and recorder (no oracle in Go)",
+                       "soundness of the quorum-view abstraction (DESIGN.md 5.1): every received-set is a view"]
 
 
 MANIFEST = dict(
-    text=("Agreement is an invariant model-checked by TLC on the quorum-view abstraction GPBFTQuorum.tla: every schedule and every Byzantine strategy (any validly signable message "
-          "given the honest votes cast so far, selective delivery) for 3 honest + 1 Byzantine participants, three chains over a fork, rounds 0-1; mutant configurations (weakened "
-          "quorum etc.) must yield counterexamples, which are replayed as attack schedules on real participants; the agreement clause is evaluated by TLC on all recorded runs."),
-    note="Trusted: TLC, the abstraction's soundness argument (DESIGN.md 5.1, refinement checked by simulation), driver, FakeBackend. Bounded: small committees/rounds; real runs sampled.",
-    technique="TLC model checking of GPBFTQuorum.tla + attack-schedule replay and trace monitors on real participants",
+    text=("Agreement is an invariant model-checked by TLC (a) exhaustively on the quorum-view abstraction GPBFTQuorum.tla: every schedule and every Byzantine strategy (any validly signable "
+          "message given the honest votes cast so far, shown to anyone at any time or never) for 3 honest + 1 Byzantine participants over a fork (quick: round 0; thorough: rounds 0-1, equal and "
+          "skewed power), with the configuration 'Byzantine power at 1/3' and weakened-quorum mutants required to be refuted; (b) by simulation on the implementation-shaped per-message model "
+          "MCGPBFT.tla. Bound to the code three ways: the agreement clause is evaluated by TLC on every decision of recorded seeded runs of real participants (adaptive forger < 1/3); "
+          "TLC-chosen schedules of the per-message model are replayed on real participants; and TLC counterexamples of mutant specs (weakened threshold, unchecked justification power/"
+          "value/round, unjustified DECIDE ...) are replayed as attack schedules -- on a correct tree the real participants refuse the critical steps."),
+    note="Trusted: TLC, the abstraction's soundness argument (DESIGN.md 5.1), the driver (scheduler/recorder), FakeBackend. Bounded: 3-4 members, <= 2 rounds at design level; real runs are sampled.",
+    technique="TLC model checking of GPBFTQuorum.tla/MCGPBFT.tla + replay of TLC-generated schedules and attack counterexamples on real participants + TLA+ trace monitors",
     design_ref="DESIGN.md section 5 and section 6 C01")
